@@ -71,6 +71,17 @@ class Norm:
             if e["op"] == "*" and len(args) == 1:
                 return "*" + args[0]
             return "op" + e["op"] + "(" + ",".join(args) + ")"
+        if k == "Un" and e["op"] == "!":
+            # negation normal form, also through the locals that are read as their initialiser: !(a && b) is !a || !b
+            x, dd = e["e"], depth
+            while isinstance(x, dict) and (x.get("k") in ("Cast", "Paren") or (x.get("k") == "Ref" and x.get("d") in self.inline and dd < 6)):
+                if x.get("k") == "Ref":
+                    x, dd = self.inline[x["d"]], dd + 1
+                else:
+                    x = x["e"]
+            if isinstance(x, dict) and x.get("k") == "Bin" and x.get("op") in ("&&", "||"):
+                l, r = sorted([self.key({"k": "Un", "op": "!", "e": x["l"]}, dd), self.key({"k": "Un", "op": "!", "e": x["r"]}, dd)])
+                return "(%s%s%s)" % (l, "||" if x["op"] == "&&" else "&&", r)
         if k == "Un":
             inner = self.key(e["e"], depth)
             if e["op"] == "!" and inner.startswith("!"):
